@@ -7,6 +7,7 @@
 //
 // Nothing here knows about trompeloeil's rules; the python engine does.
 
+#include <functional>
 #include "clang/AST/ASTConsumer.h"
 #include "clang/AST/ASTContext.h"
 #include "clang/AST/DeclCXX.h"
@@ -658,6 +659,48 @@ struct Extractor : public RecursiveASTVisitor<Extractor> {
       CurFn = nullptr;
       return;
     }
+    // ---- try scopes: which statements lie lexically inside which try block (the CFG without EH edges
+    // does not say); every event carries the chain of enclosing try statements, innermost first
+    llvm::DenseMap<const Stmt *, int> TryOf;
+    std::vector<int> TryParent;
+    {
+      json::Array Tries;
+      std::function<void(const Stmt *, int)> Walk = [&](const Stmt *S, int Cur) {
+        if (!S) return;
+        if (auto *TS = dyn_cast<CXXTryStmt>(S)) {
+          int Idx = (int)TryParent.size();
+          TryParent.push_back(Cur);
+          json::Object TO;
+          TO["id"] = (int64_t)Idx;
+          TO["loc"] = locStr(TS->getBeginLoc());
+          TO["parent"] = (int64_t)Cur;
+          json::Array Hs;
+          for (unsigned K = 0; K < TS->getNumHandlers(); ++K) {
+            const CXXCatchStmt *CS = TS->getHandler(K);
+            Hs.push_back(CS->getExceptionDecl() ? typeStr(CS->getCaughtType()) : std::string("..."));
+          }
+          TO["handlers"] = std::move(Hs);
+          Tries.push_back(std::move(TO));
+          Walk(TS->getTryBlock(), Idx);
+          for (unsigned K = 0; K < TS->getNumHandlers(); ++K) Walk(TS->getHandler(K), Cur);
+          return;
+        }
+        if (isa<LambdaExpr>(S)) return;   // a lambda body is another function
+        if (Cur >= 0) TryOf[S] = Cur;
+        for (const Stmt *C : S->children()) Walk(C, Cur);
+      };
+      Walk(FD->getBody(), -1);
+      if (!Tries.empty()) F["tries"] = std::move(Tries);
+    }
+    auto TagTry = [&](const Stmt *S, json::Array &Ev, size_t From) {
+      auto It = TryOf.find(S);
+      if (It == TryOf.end()) return;
+      for (size_t K = From; K < Ev.size(); ++K) {
+        json::Array Ch;
+        for (int T = It->second; T >= 0; T = TryParent[T]) Ch.push_back((int64_t)T);
+        if (auto *O = Ev[K].getAsObject()) (*O)["try"] = std::move(Ch);
+      }
+    };
     json::Array Blocks;
     for (const CFGBlock *B : *G) {
       json::Object BO2;
@@ -673,8 +716,13 @@ struct Extractor : public RecursiveASTVisitor<Extractor> {
         case CFGElement::Statement:
         case CFGElement::Constructor:
         case CFGElement::CXXRecordTypedCall:
-          stmtEvents(El.castAs<CFGStmt>().getStmt(), Ev, Lite);
+        {
+          size_t From = Ev.size();
+          const Stmt *ES = El.castAs<CFGStmt>().getStmt();
+          stmtEvents(ES, Ev, Lite);
+          TagTry(ES, Ev, From);
           break;
+        }
         case CFGElement::Initializer: {
           const CXXCtorInitializer *I = El.castAs<CFGInitializer>().getInitializer();
           if (Lite) break;
